@@ -27,7 +27,8 @@ def run(ctx):
                     max_loops=3 if ctx.quick else 4, routings_per_graph=1, kinds=("uniform", "uniform", "corner"), scales=(1, 1, 1, Fraction(1, 2 ** 33), 2 ** 30))
     # exact integer degrees of divergence and even dimensions (integral exponents of powf), >= 4 loops with shifts on several loops
     ss += S.generate(ctx, 0, 3 if ctx.quick else 6, routings_per_graph=1, kinds=("uniform",),
-                     special=("integer_dod:4", "integer_dod:2", "integer_dod:3", "integer_dod:5", "integer_dod:6", "integer_dod:1", "vacuum_massless", "vacuum_massless", "vacuum") * (1 if ctx.quick else 4))
+                     special=("integer_dod:4", "integer_dod:2", "integer_dod:3", "integer_dod:5", "integer_dod:6", "integer_dod:1", "vacuum_massless", "vacuum_massless", "vacuum",
+                              "repeated_weights", "weights_equal_dod", "repeated_weights", "weights_equal_dod", "weights_equal_dod") * (1 if ctx.quick else 4))
     # a vertex with two external legs is listed twice in `externals`
     ss += S.generate(ctx, 5 if ctx.quick else 25, 3, max_e=5, max_loops=3, routings_per_graph=1, kinds=("uniform",), ext_modes=["dup"])
     ss += S.generate(ctx, 3 if ctx.quick else 12, 3, max_e=6, max_loops=5, routings_per_graph=1, kinds=("uniform",), names=["banana5", "banana6"])
@@ -47,8 +48,10 @@ def run(ctx):
         if dod > 0 and not oracle.divergent_subsets(table):
             icases.append(dict(edges=edges, weights=w, massive=massive, ext=ext, D=D, table=table, dod=dod, loops=Lf, accepted=True, name="integer_weights"))
     ss += S.samples_for_cases(ctx, icases, 2)
+    ss += S.samples_for_cases(ctx, S.big_dimension_cases(rng), 2)      # D = 260 (beyond a byte) and D = 13
     S.run(ss)
     SC.generic_scalar_guard(ctx, ss[:: 5], k=6)
+    SC.nolog_agreement(ctx, ss[:: 4], k=16)
     SC.corr_sample(ctx, ss, fields=("uTrop", "vTrop", "jac"))
     for s in ss:
         a, c, r = s["impl"], s["case"], s["routing"]
